@@ -38,7 +38,7 @@ def fixed_flow_origin(M):
     return FixedFlowOrigin
 
 
-def one(M, rec, rng, g, desc, pars, st):
+def one(M, rec, rng, g, desc, pars, st, ops=None, regime=None):
     cand = CC.candidate_params(desc, pars)
     custom = {}
     if rng.random() < 0.3 and not any(o.get("user") or o.get("user_cap_flow") is not None for o in desc["origins"]):
@@ -60,7 +60,7 @@ def one(M, rec, rng, g, desc, pars, st):
     if rng.random() < 0.25 and not any(k_ == ("#", "T") for k_ in keys):
         T2 = rng.choice([t for t in (5.0, 7.5, 10.0, 15.0, 20.0) if abs(t / 3600.0 - pars["T"]) > 1e-9]) / 3600.0
     try:
-        case = CC.CompileCase(M, rng, desc, pars, st, keys, opts, own_symbols=(rng.random() < 0.5), reuse=custom, restep_T=T2)
+        case = CC.CompileCase(M, rng, desc, pars, st, keys, opts, ops=ops, own_symbols=(rng.random() < 0.5), reuse=custom, restep_T=T2)
         if T2 is not None:
             pars = dict(pars, T=T2)  # the identities below are those of the LAST step
             rec.count("cases_stepped_again_with_another_sampling_time")
@@ -78,7 +78,7 @@ def one(M, rec, rng, g, desc, pars, st):
             rec.seen("failed", repr(e)[:100])
             continue
         for _pt in range(2):
-            _, vals = g.values(desc, allow_inf=False)
+            _, vals = g.values(desc, regime, allow_inf=False) if regime else g.values(desc, allow_inf=False)
             if R.is_singular(desc, vals):
                 rec.count("skipped_singular")
                 continue
@@ -170,6 +170,27 @@ def one(M, rec, rng, g, desc, pars, st):
                 rec.sample({"desc": desc, "vals": vals, "compact": compact, "q": q, "q_o": qo})
 
 
+def long_corridor_with_a_late_feeder(M, rec, rng, g, st):
+    """Scripted in every run: a corridor of 90 links whose segment counts come from a down-cast table (numpy.uint8 / int8), and
+    a feeder road with an ideal origin joining half-way (its link is the last one in the network, several hundred segments
+    down the list): every reported flow is still the one of ITS link / origin."""
+    n_links = 90
+    dt = rng.choice(("uint8", "int8", "uint8"))
+
+    def lk(i, up, dn, N):
+        return {"id": f"L{i}", "name": f"L{i}", "up": up, "down": dn, "N": N, "lam": 2, "L": 1.0, "rho_max": 180.0, "rho_crit": 33.5, "v_free": 102.0, "a": 1.867,
+                "beta": 1.0, "vsl": None, "alpha": None, "N_dtype": dt}
+
+    nodes = [f"n{i}" for i in range(n_links + 1)] + ["f0"]
+    links = [lk(i, f"n{i}", f"n{i + 1}", 3) for i in range(n_links)] + [lk(n_links, "f0", f"n{n_links // 2}", 2)]
+    desc = {"nodes": nodes, "links": links,
+            "origins": [{"id": "O0", "name": "O0", "node": "n0", "kind": "main", "C": None, "eq": None},
+                        {"id": "O1", "name": "O1", "node": "f0", "kind": "ideal", "C": None, "eq": None}],
+            "dests": [{"id": "D0", "name": "D0", "node": f"n{n_links}", "kind": "free"}]}
+    rec.count("long_corridors_with_small_integer_segment_counts")
+    one(M, rec, rng, g, desc, g.pars(), st, ops=D.default_ops(desc), regime="interior")  # (built in the order of the table: the feeder comes last)
+
+
 def run(M, rec, tier, seed, k, n):
     np.seterr(all="ignore")
     rng = random.Random(seed * 1000 + k + 500)
@@ -183,6 +204,8 @@ def run(M, rec, tier, seed, k, n):
         pars = g.pars()
         for st in ("SX", "MX"):
             one(M, rec, rng, g, desc, pars, st)
+    for st in ("SX", "MX"):
+        long_corridor_with_a_late_feeder(M, rec, rng, g, st)
 
 
 def finish(M, rec, write=True):
